@@ -19,7 +19,7 @@
 (*   Post     applies the effect of the observed verdict / round.          *)
 (* Failures accumulate in `viol` (non-halting) and are printed per trace.  *)
 (***************************************************************************)
-EXTENDS HMS, Json, IOUtils
+EXTENDS HMS, Report, Json, IOUtils
 
 AllTraces == JsonDeserialize(IOEnv.VERIF_TRACES)
 NTraces   == Len(AllTraces)
@@ -33,7 +33,7 @@ vars == <<tid, l, st, mem, viol>>
 
 Tr      == AllTraces[tid].events
 Ev      == Tr[l]
-HasSnap(e) == e.e \in {"start", "gsc", "lsc", "sprout", "end", "abort"}
+HasSnap(e) == e.e \in {"start", "gsc", "lsc", "sprout", "end", "abort", "report", "dump"}
 
 -----------------------------------------------------------------------------
 (* Reading events                                                          *)
@@ -122,6 +122,9 @@ Pre(s, e) ==
       [] e.e = "end" ->
            R(s, IF s.pc = "done" THEN {} ELSE {"C05_DoneImpliesGsc"})
       [] e.e = "start" -> R(InitAll(s, e.b), {})
+      [] e.e \in {"report", "dump"} ->      \* probes at the loop head (before the loop-head consult)
+           LET s0 == IF s.pc = "sprout" THEN [s EXCEPT !.pc = "loop"] ELSE s
+           IN R(IF s0.pc \in {"init", "loop"} THEN InitAll(s0, e.b) ELSE s0, {})
       [] OTHER -> R(s, {})
 
 -----------------------------------------------------------------------------
@@ -385,6 +388,27 @@ SproutClauses(s, m, e) ==
                                       /\ ~IsLeafLevel(s, Lvl(s, e.gen[i][1])))
          THEN {"C10_CandidatesFromActiveNonLeaves"} ELSE {})
 
+\* C20: the report probe
+ReportClauses(e) ==
+    LET rep == e.rep  sn == e.snap IN
+        (IF e.err # "" THEN {"C20_AccessorRaises"} ELSE {})
+   \cup (IF e.err = "" /\ rep.ok # 1 THEN {"C20_ReportWellFormed"} ELSE {})
+   \cup (IF e.err = "" /\ rep.ok = 1 /\ ~R_HeaderOK(sn, rep) THEN {"C20_HeaderMatches"} ELSE {})
+   \cup (IF e.err = "" /\ rep.ok = 1 /\ ~R_LevelsOK(sn, rep) THEN {"C20_LevelMatches"} ELSE {})
+   \cup (IF e.err = "" /\ rep.ok = 1 /\ ~R_LinesOK(sn, rep) THEN {"C20_DemeLines"} ELSE {})
+   \cup (IF e.err = "" /\ rep.ok = 1 /\ ~R_MarkerOK(rep) THEN {"C20_MarkerExact"} ELSE {})
+   \cup (IF e.err = "" /\ rep.intree # 1 THEN {"C20_TreeInSummary"} ELSE {})
+   \cup (IF e.pure # 1 \/ e.nocalls # 1 THEN {"C20_AccessorPure"} ELSE {})
+   \cup (IF e.err = "" /\ e.same # 1 THEN {"C20_AccessorIdempotent"} ELSE {})
+
+\* C19: the snapshot / restore probe
+DumpClauses(e) ==
+        (IF e.err # "" THEN {"C19_DumpLoadRaises"} ELSE {})
+   \cup (IF e.err = "" /\ (e.stutter # 1 \/ e.livestill # 1) THEN {"C19_DumpIsStutter"} ELSE {})
+   \cup (IF e.err = "" /\ e.loadeq # 1 THEN {"C19_LoadEqualsSnapshot"} ELSE {})
+   \cup (IF e.err = "" /\ e.summarysame # 1 THEN {"C19_SummarySame"} ELSE {})
+   \cup (IF e.err = "" /\ e.verdictsame # 1 THEN {"C19_VerdictSame"} ELSE {})
+
 -----------------------------------------------------------------------------
 Init == /\ tid \in 1..NTraces
         /\ l = 1
@@ -426,10 +450,11 @@ Step ==
            hibc == IF e.e = "gsc" /\ e.by = "run" /\ ~C18_HibIffNoSproutInLastRound(s2)
                    THEN {"C18_HibIffNoSproutInLastRound"} ELSE {}
            stall == IF e.e = "abort" THEN {"RunStalled"} ELSE {}
+           probe == IF e.e = "report" THEN ReportClauses(e) ELSE IF e.e = "dump" THEN DumpClauses(e) ELSE {}
        IN /\ st' = q.st
           /\ mem' = m4
           /\ viol' = viol \cup Tag(p.errs \cup cmp \cup SnapClauses(s2, sn) \cup StateClauses(s2) \cup CallClauses(e)
-                                   \cup fc \cup tb \cup pc \cup sc \cup q.errs \cup idle \cup endc \cup hibc \cup stall, l)
+                                   \cup fc \cup tb \cup pc \cup sc \cup q.errs \cup idle \cup endc \cup hibc \cup stall \cup probe, l)
     /\ l' = l + 1
     /\ UNCHANGED tid
 
